@@ -1,7 +1,8 @@
 (* Correspondence cases for C16: the implementation's outputs are compared with Model.ParzenSplit and with the
    decidable specifications, inside Coq.  No proofs here (soundness of the split check: Proofs/ParzenSplit.v). *)
 From Coq Require Import List QArith ZArith Bool Arith Qabs.
-From LV Require Import Model.ParzenSplit.
+From LV Require Import Model.ParzenSplit Model.ParzenHist.
+From LV Require Model.Lies.
 Import ListNotations.
 Open Scope Q_scope.
 
@@ -24,7 +25,12 @@ Inductive case :=
 | CBand (numerical : list nat) (cat_ls factor : Q) (dim : nat) (pts : list point) (raw final : list (option Q))
 (* form_sigopt_parzen_estimator_for_search: out = (lower_points, greater_points, gamma) or None on the error *)
 | CSearch (gamma0 : Q) (dim : nat) (pts : list point) (vals : list Q) (perm : option (list nat))
-          (thr : list (option Q)) (pf : list (list Q)) (out : option (list point * list point * Q)).
+          (thr : list (option Q)) (pf : list (list Q)) (out : option (list point * list point * Q))
+(* a history on ONE live estimator object whose two covariances evaluate the rational kernel ParzenHist.rkern:
+   init = the object after construction (sets, no lies, gamma, hyperparameters), ops = the operations applied in order,
+   outs = what each returned, snaps = lower_points / greater_points / lower_lies / greater_lies / gamma / hyperparameters
+   read off the object after each operation *)
+| CHist (init : est) (ops : list hop) (outs : list hout) (snaps : list est).
 
 Fixpoint rows_eqb (a b : list point) : bool :=
   match a, b with [], [] => true | x :: a', y :: b' => row_eqb x y && rows_eqb a' b' | _, _ => false end.
@@ -83,6 +89,65 @@ Fixpoint raw_tail_ok (numerical : list nat) (cat_ls factor : Q) (pts : list poin
   | r :: rest => raw_entry_ok numerical cat_ls factor pts i r && raw_tail_ok numerical cat_ls factor pts (S i) rest
   end.
 
+(* ---- histories on a live estimator (Model/ParzenHist.v) ---- *)
+Definition pz_eqb (a b : Lies.pz) : bool :=
+  Nat.eqb (Lies.p_dim a) (Lies.p_dim b) && rows_eqb (Lies.p_lower a) (Lies.p_lower b) &&
+  rows_eqb (Lies.p_greater a) (Lies.p_greater b) && rows_eqb (Lies.p_lower_lies a) (Lies.p_lower_lies b) &&
+  rows_eqb (Lies.p_greater_lies a) (Lies.p_greater_lies b).
+Definition est_eqb (a b : est) : bool :=
+  pz_eqb (e_pz a) (e_pz b) && Qeq_bool (e_gamma a) (e_gamma b) && row_eqb (e_hl a) (e_hl b) && row_eqb (e_hg a) (e_hg b).
+Definition lie_out_eqb (a b : Lies.out) : bool :=
+  match a, b with
+  | Lies.ONone, Lies.ONone => true
+  | Lies.OErr Lies.ValueError, Lies.OErr Lies.ValueError => true
+  | Lies.OStash a1 b1, Lies.OStash a2 b2 => rows_eqb a1 a2 && rows_eqb b1 b2
+  | _, _ => false
+  end.
+Fixpoint all2 {A B} (f : A -> B -> bool) (a : list A) (b : list B) : bool :=
+  match a, b with [] , [] => true | x :: a', y :: b' => f x y && all2 f a' b' | _, _ => false end.
+Definition oclose (m i : option Q) : bool :=
+  match m, i with Some x, Some y => close x y | None, None => true | _, _ => false end.
+Definition ei_close (m i : option (Q * Q * Q)) : bool :=
+  match m, i with
+  | Some (l, g, r), Some (il, ig, ir) => close l il && close g ig && close r ir
+  | None, None => true
+  | _, _ => false
+  end.
+(* model output against the implementation's: exact for the bookkeeping, 1e-12 for densities and ratios *)
+Definition hout_close (m i : hout) : bool :=
+  match m, i with
+  | HNone, HNone | HErr, HErr => true
+  | HLieOut a, HLieOut b => lie_out_eqb a b
+  | HEI a, HEI b => all2 ei_close a b
+  | HDens a, HDens b => all2 oclose a b
+  | HVal a, HVal b => oclose a b
+  | _, _ => false
+  end.
+(* the property on the implementation's own numbers, for the gamma the object holds when it is asked *)
+Definition ei_spec_b (gamma : Q) (i : option (Q * Q * Q)) : bool :=
+  match i with
+  | None => true
+  | Some (il, ig, ir) =>
+      Qle_bool SPE_MINIMUM_LOWER_DENSITY_VALUE il && Qle_bool 0 ig &&
+      (negb (Qltb 0 gamma && Qltb gamma 1) ||
+       (Qltb 0 ir && Qle_bool ir ((1 / gamma) * (1 + TOL)) && close (1 / (gamma + (1 - gamma) * (ig / il))) ir))
+  end.
+Definition hout_spec_b (s : est) (o : hop) (i : hout) : bool :=
+  match o, i with
+  | HEval _, HEI v => forallb (ei_spec_b (e_gamma s)) v
+  | HLowerDens _, HDens v =>
+      forallb (fun d => match d with Some x => Qle_bool SPE_MINIMUM_LOWER_DENSITY_VALUE x | None => true end) v
+  | HGreaterDens _, HDens v => forallb (fun d => match d with Some x => Qle_bool 0 x | None => true end) v
+  | HObjective _, HVal (Some r) =>
+      negb (Qltb 0 (e_gamma s) && Qltb (e_gamma s) 1) || (Qltb 0 r && Qle_bool r ((1 / e_gamma s) * (1 + TOL)))
+  | _, _ => true
+  end.
+(* states before each op: init :: states after, cut to the number of ops *)
+Definition hist_ok (init : est) (ops : list hop) (outs : list hout) (snaps : list est) : bool :=
+  all2 hout_close (htrace rkern init ops) outs &&
+  all2 est_eqb (hstates rkern init ops) snaps &&
+  all2 (fun so i => hout_spec_b (fst so) (snd so) i) (combine (init :: hstates rkern init ops) ops) outs.
+
 Definition check (c : case) : bool :=
   match c with
   | CSplit gamma forget pts vals perm out => split_case_ok gamma forget pts vals perm out
@@ -129,4 +194,5 @@ Definition check (c : case) : bool :=
             rows_eqb mlo lo && rows_eqb mgr gr && close mg g
           else split_case_ok gamma0 0 pts vals perm (OOk lo gr) && Qeq_bool g gamma0
       end
+  | CHist init ops outs snaps => hist_ok init ops outs snaps
   end.
